@@ -495,6 +495,35 @@ func runC05(h *Harness) {
 			h.Violation("C05.authentic-ignored", "in-flight:first-query:"+errStr(ha.Err), "the slow, authentic 'good' answer for the first certificate ended in %s", errStr(ha.Err))
 		}
 	}
+	// the same subject and serial under ANOTHER CA, one after the other: the first certificate's authentic 'good' is
+	// remembered (ocsp cache 10m); the second certificate is a different certificate, issued by another key (a CA that
+	// was re-keyed under its old name, or a CA of another name; the leaves with or without an authority key
+	// identifier), and its own issuer says 'revoked'. What was remembered for the first is no answer for the second.
+	if len(h.R.Violations) == 0 && h.Idx%4 != 3 {
+		other, otherName, aki := w.Sib, "same-name-ca", akiDefault
+		switch h.Idx % 4 {
+		case 1:
+			other, otherName, aki = w.B, "other-name-ca", akiAbsent
+		case 2:
+			aki = akiAbsent
+		}
+		akiName := map[int]string{akiDefault: "aki-keyid", akiAbsent: "no-aki"}[aki]
+		r1 := w.NewResponder("http://ocsp-twin-a.sim/", w.A)
+		r2 := w.NewResponder("http://ocsp-twin-o.sim/", other)
+		r1.Status, r2.Status = rGood, rRevoked
+		s3 := big.NewInt(0x3c3c)
+		c1 := w.A.Issue(EEOpts{CN: "twin", Serial: s3, OCSP: []string{r1.URL}, CDP: []string{}, AKI: aki})
+		c2 := other.Issue(EEOpts{CN: "twin", Serial: s3, OCSP: []string{r2.URL}, CDP: []string{}, AKI: aki})
+		t1 := h.Handshake(n, "twin-first", w.ChainFor(c1, w.A))
+		h.Quiesce()
+		t2 := h.Handshake(n, "twin-under-other-ca", w.ChainFor(c2, other))
+		h.R.Checks += 2
+		if t1.Err != nil {
+			h.Violation("C05.authentic-ignored", "twin-first:"+errStr(t1.Err), "the authentic 'good' answer for the first of two certificates with the same subject and serial ended in %s", errStr(t1.Err))
+		} else if !isRevokedErr(t2.Err) {
+			h.Violation("C05.unauthentic-decides", "remembered-for-other-issuer:"+otherName+":"+akiName+":"+errStr(t2.Err), "a certificate with the subject and serial of one checked before, but issued by another CA (%s, leaves %s) whose responder says 'revoked', returned %s (responder of its issuer asked %d times): the answer signed by the first certificate's issuer decided", otherName, akiName, errStr(t2.Err), r2.Hits)
+		}
+	}
 	h.R.Sample = map[string]any{"case": desc, "strict": strict, "authentic": authentic, "hs1": v1, "hs2(responder down)": v2, "hs3(authentic revoked)": v3}
 	h.Cleanup(n)
 }
